@@ -97,10 +97,13 @@ def slow_kernel(cls):
     if call is None:
         return None
     for c in A.calls_in(call.node):
-        if A.call_attr(c) == "_slow_interpolator_looper" and len(c.args) >= 3:
-            d = A.dotted(c.args[2])
-            if d and d.startswith("self."):
-                return cls.methods.get(d.split(".")[1])
+        if A.call_attr(c) == "_slow_interpolator_looper":
+            # the formula handed to the looper: third positional argument, a keyword, or whichever argument is a bound method
+            cands = ([c.args[2]] if len(c.args) >= 3 else []) + [k.value for k in c.keywords if k.arg in ("func", "formula", "kernel")] + [k.value for k in c.keywords] + list(c.args)
+            for a_ in cands:
+                d = A.dotted(a_)
+                if d and d.startswith("self.") and d.split(".")[1] in cls.methods and d.count(".") == 1:
+                    return cls.methods.get(d.split(".")[1])
     return None
 
 
@@ -818,7 +821,8 @@ def _looper(ctx, rid, repo):
         w = World({"__strict__": True}, module_env={"exceptions": Obj("exceptions")})
         w.add_func(f)
         for tag in ("first", "second"):
-            out = w.call_func(f, [hs, al, formula(tag)])
+            ko_ = [a_.arg for a_ in f.node.args.kwonlyargs]
+            out = w.call_func(f, [hs, al], {ko_[0]: formula(tag)}) if len(ko_) == 1 and len(f.node.args.args) == 2 else w.call_func(f, [hs, al, formula(tag)])  # the formula is the third argument, keyword-only or not
             bad = None
             ok_shape = isinstance(out, list) and len(out) == nS and all(isinstance(x, list) and len(x) == nH and all(isinstance(y, list) and len(y) == nA and all(isinstance(z, list) and len(z) == nB for z in y) for y in x) for x in out)
             if ok_shape:
